@@ -78,6 +78,8 @@ def corpus_c09(entries, tier):
         own = [e["bytes"] for e in small if _codec_of(e["file"]) == base]
         for i in range(0, len(own), 6):
             out.append(dict(fam="C09", kind=kind, src="bytes", items=own[i:i + 8], probes=True, scribble=True, **{"class": kind + "_corpus_history"}))
+            if kind in ("vp8", "vp9", "h264", "h264_avc", "h265", "h265_donl", "av1"):
+                out.append(dict(fam="C09", kind=kind, src="bytes", items=own[i:i + 8], probes=True, scribble=True, zeroalloc=True, **{"class": kind + "_corpus_history_zero_allocation"}))
     return out
 
 
@@ -863,7 +865,8 @@ def rand_c09(seed, tier, cases=None):
             if b and rng.random() < 0.6:
                 b[0] = rng.choice([0x1C, 0x7C, 0x18, 0x78, 0x62, 0x60, 0x64, 0x90, 0x80, 0xFF, 0xAA, 0x10, 0x50, 0x30, 0x00])
             items.append(b)
-        out.append(dict(fam="C09", kind=kind, src="bytes", items=items, probes=True, scribble=True, prefill=(kind in ("vp8", "vp9", "opus") and rng.random() < 0.4), **{"class": kind + "_rand"}))
+        out.append(dict(fam="C09", kind=kind, src="bytes", items=items, probes=True, scribble=True, prefill=(kind in ("vp8", "vp9", "opus") and rng.random() < 0.4),
+                        zeroalloc=(kind.split("_")[0] in ("vp8", "vp9", "h264", "h265", "av1") and kind not in ("av1_legacy",) and rng.random() < 0.35), **{"class": kind + "_rand"}))
     # long runs: 300 payloads into one receiver
     for kind in C09_KINDS:
         items = []
@@ -873,6 +876,8 @@ def rand_c09(seed, tier, cases=None):
                 b[0] = rng.choice([0x1C, 0x7C, 0x18, 0x78, 0x62, 0x60, 0x64, 0x90, 0x80, 0xFF, 0xAA, 0x10, 0x50, 0x30, 0x00, 0x65, 0x26])
             items.append(b)
         out.append(dict(fam="C09", kind=kind, src="bytes", items=items, probes=True, scribble=True, **{"class": kind + "_long_run"}))
+        if kind in ("vp8", "vp9", "h264", "h264_avc", "h265", "h265_donl", "av1"):
+            out.append(dict(fam="C09", kind=kind, src="bytes", items=items, probes=True, scribble=True, zeroalloc=True, **{"class": kind + "_long_run_zero_allocation"}))
     return out
 
 
